@@ -758,6 +758,10 @@ func (vc *VC) resolveCallee(fromPkg *Pkg, info *types.Info, fn *types.Func, recv
 			return nil
 		}
 		key := origin.Pkg().Name() + "." + origin.Name()
+		if osg, ok := origin.Type().(*types.Signature); ok && osg.Recv() != nil {
+			// method of a stdlib type: "pkg.(*T).Name"
+			key = origin.Pkg().Name() + "." + contractKeyOf(origin)
+		}
 		ct := fromPkg.Contracts.Funcs[key]
 		if ct == nil && vc.ld.stdlib != nil {
 			ct = vc.ld.stdlib.Funcs[key]
